@@ -252,8 +252,8 @@ def depth_cases(cfg0):
                 x = U.CA([x], 1)
         return x
 
-    def run_all(obj, nil):
-        kw = dict(none_is_leaf=nil)
+    def run_all(obj, nil, pred=None):
+        kw = dict(none_is_leaf=nil, is_leaf=pred)
         outs = []
         for name, fn in (('tree_flatten', lambda: len(optree.tree_flatten(obj, **kw)[0])),
                          ('tree_flatten_with_path', lambda: len(optree.tree_flatten_with_path(obj, **kw)[1])),
@@ -274,22 +274,25 @@ def depth_cases(cfg0):
         for delta in (-2, -1, 0, 1, 2):
             for nil in (False, True):
                 obj = chain(kind, M + delta, U.Leaf(1))
-                out.append({'op': 'depth', 'kind': kind, 'delta': delta, 'nil': nil, 'depth': M + delta, 'outs': run_all(obj, nil)})
+                out.append({'op': 'depth', 'kind': kind, 'delta': delta, 'nil': nil, 'depth': M + delta, 'pred': False, 'outs': run_all(obj, nil)})
+                # with a predicate that accepts the (possibly over-deep) leaf: the depth check still comes first
+                out.append({'op': 'depth', 'kind': kind, 'delta': delta, 'nil': nil, 'depth': M + delta, 'pred': True,
+                            'outs': run_all(obj, nil, lambda x: type(x) is U.Leaf)})
                 obj = None
     # self-referential containers and a custom node whose flatten never terminates
     l = []
     l.append(l)
-    out.append({'op': 'depth', 'kind': 'self-list', 'delta': 99, 'nil': False, 'depth': 0, 'outs': run_all(l, False)})
+    out.append({'op': 'depth', 'kind': 'self-list', 'delta': 99, 'nil': False, 'depth': 0, 'pred': False, 'outs': run_all(l, False)})
     d = {}
     d['a'] = d
-    out.append({'op': 'depth', 'kind': 'self-dict', 'delta': 99, 'nil': False, 'depth': 0, 'outs': run_all(d, False)})
+    out.append({'op': 'depth', 'kind': 'self-dict', 'delta': 99, 'nil': False, 'depth': 0, 'pred': False, 'outs': run_all(d, False)})
 
     class Endless(U.CA):
         def tree_flatten(self):
             return ((Endless([], 1),), U.mk_meta(1))
     optree.register_pytree_node_class(Endless, namespace=U.GLOBAL_NAMESPACE)
     try:
-        out.append({'op': 'depth', 'kind': 'endless-custom', 'delta': 99, 'nil': False, 'depth': 0, 'outs': run_all(Endless([], 1), False)})
+        out.append({'op': 'depth', 'kind': 'endless-custom', 'delta': 99, 'nil': False, 'depth': 0, 'pred': False, 'outs': run_all(Endless([], 1), False)})
     finally:
         optree.unregister_pytree_node(Endless, namespace=U.GLOBAL_NAMESPACE)
     return out
